@@ -184,6 +184,10 @@ impl Iterator for OsuGradualDifficulty {
     }
 
     fn nth(&mut self, n: usize) -> Option<Self::Item> {
+        // As per `Iterator::nth`, if fewer than `n + 1` items remain, all of
+        // them are consumed and `None` is returned.
+        let in_bounds = n < self.len();
+
         let skip_iter = self.diff_objects.iter().skip(self.idx.saturating_sub(1));
 
         let mut take = cmp::min(n, self.len().saturating_sub(1));
@@ -200,7 +204,7 @@ impl Iterator for OsuGradualDifficulty {
             self.idx += 1;
         }
 
-        self.next()
+        self.next().filter(|_| in_bounds)
     }
 }
 
